@@ -11,6 +11,8 @@ import (
 	_ "verif/checks/c04"
 	_ "verif/checks/c05"
 	_ "verif/checks/c06"
+	_ "verif/checks/c10"
+	_ "verif/checks/c11"
 	_ "verif/checks/c12"
 	_ "verif/checks/c19"
 )
